@@ -11,9 +11,10 @@
 //	(b) writes Coq case files that compare the same observations with the Gallina
 //	    model of HandleBulkBody (SigM.Bulk.handle).
 //
-// Streams: "main" (bodies on which the property is expected to hold, incl. oversize
-// documents placed where the known defects cannot show) and "known/*" (bodies of
-// the confirmed defect classes, see known/C15.json).
+// Streams: "main", "regression/trailing_action" and "regression/oversize" (bodies of
+// the three defect classes repaired by fixes/C15-bulk-response-accounting.diff: if
+// one of them comes back it is a VIOLATION with a concrete input) and
+// "known/store_failure" (the still open finding, see known/C15.json).
 package main
 
 import (
@@ -200,8 +201,12 @@ type action struct {
 	HasDoc bool
 }
 
-func grammar(lines []lineSpec, lens []int) []action {
+func grammar(lines []lineSpec, lens []int, finalNL bool) []action {
 	var out []action
+	// the body's lines: a blank last line (the body ends in "\n\n") is not a line
+	if finalNL && len(lines) > 0 && lens[len(lines)-1] == 0 {
+		lines, lens = lines[:len(lines)-1], lens[:len(lens)-1]
+	}
 	for i := 0; i < len(lines); {
 		l := lines[i]
 		switch l.Act {
@@ -302,7 +307,7 @@ func evaluate(c bodyCase) (obs observation, fails []failure, texts []string, len
 	if c.FinalNL {
 		body += "\n"
 	}
-	acts := grammar(c.Lines, lens)
+	acts := grammar(c.Lines, lens, c.FinalNL)
 
 	// ---- the real HandleBulkBody ----
 	var respJS []byte
@@ -387,8 +392,11 @@ func evaluate(c bodyCase) (obs observation, fails []failure, texts []string, len
 	claimed := map[[2]int]bool{}
 	// one item per action, in request order
 	if len(obs.Items) != len(acts) {
-		last := acts[len(acts)-1]
-		if len(obs.Items) == len(acts)-1 && !last.HasDoc {
+		var last action
+		if len(acts) > 0 {
+			last = acts[len(acts)-1]
+		}
+		if len(acts) > 0 && len(obs.Items) == len(acts)-1 && !last.HasDoc {
 			fails = append(fails, failure{"bulk_trailing_action_without_doc",
 				fmt.Sprintf("%d actions, %d items: the last action (line %d %q, no document line follows) has no item", len(acts), len(obs.Items), last.ALine, c.Lines[last.ALine].Shape)})
 		} else {
@@ -554,7 +562,7 @@ func genMain(r *vhlib.Rng) bodyCase {
 	nIdx := r.Range(1, 4)
 	c := bodyCase{Stream: "main", FinalNL: r.Chance(75)}
 	n := r.Range(0, 8)
-	if r.Chance(12) { // an oversize document where the known defects cannot show: a 400 before it, no 400 after it
+	if r.Chance(12) { // an oversize document after a 400 item and with no 400-deserving action after it
 		k := r.Range(0, 2)
 		for i := 0; i < k; i++ {
 			c.Lines = append(c.Lines, someAction(r, nIdx, true)...)
@@ -576,10 +584,10 @@ func genMain(r *vhlib.Rng) bodyCase {
 	return c
 }
 
-// known class 1: the body ends with an action that has no document line
+// repaired class 1: the body ends with an action that has no document line
 func genTrailing(r *vhlib.Rng) bodyCase {
 	nIdx := r.Range(1, 3)
-	c := bodyCase{Stream: "known/trailing_action", FinalNL: r.Chance(70)}
+	c := bodyCase{Stream: "regression/trailing_action", FinalNL: r.Chance(70)}
 	for i := 0; i < r.Range(0, 3); i++ {
 		c.Lines = append(c.Lines, someAction(r, nIdx, true)...)
 	}
@@ -600,10 +608,10 @@ func genTrailing(r *vhlib.Rng) bodyCase {
 	return c
 }
 
-// known class 2: oversize documents without the protection of the main stream
+// repaired classes 2 and 3: oversize documents anywhere
 func genOversize(r *vhlib.Rng) bodyCase {
 	nIdx := r.Range(1, 3)
-	c := bodyCase{Stream: "known/oversize", FinalNL: r.Chance(75)}
+	c := bodyCase{Stream: "regression/oversize", FinalNL: r.Chance(75)}
 	for i := 0; i < r.Range(0, 2); i++ {
 		c.Lines = append(c.Lines, someAction(r, nIdx, false)...)
 	}
@@ -646,14 +654,14 @@ func corner() []bodyCase {
 		{Stream: "main", Lines: []lineSpec{ix, ix, doc, mk("create", 3), doc}, FinalNL: false},
 		{Stream: "main", Lines: []lineSpec{ix, sized("doc_sized", maxRec-1)}, FinalNL: true},
 		{Stream: "main", Lines: []lineSpec{mk("garbage", 0), ix, sized("doc_sized", maxRec), ix, doc}, FinalNL: true},
-		{Stream: "known/trailing_action", Lines: []lineSpec{mk("delete", 1)}, FinalNL: true},
-		{Stream: "known/trailing_action", Lines: []lineSpec{ix, doc, mk("delete", 1)}, FinalNL: true},
-		{Stream: "known/trailing_action", Lines: []lineSpec{ix}, FinalNL: true},
-		{Stream: "known/trailing_action", Lines: []lineSpec{ix}, FinalNL: false},
-		{Stream: "known/trailing_action", Lines: []lineSpec{ix, mk("empty", 0)}, FinalNL: true}, // "expected another line": item 400, nothing dropped
-		{Stream: "known/trailing_action", Lines: []lineSpec{mk("update", 1), mk("empty", 0)}, FinalNL: true},
-		{Stream: "known/oversize", Lines: []lineSpec{ix, sized("doc_sized", maxRec+10), ix, mk("doc_truncated", 0), ix, doc}, FinalNL: true},
-		{Stream: "known/oversize", Lines: []lineSpec{ix, sized("doc_sized", maxRec)}, FinalNL: true},
+		{Stream: "regression/trailing_action", Lines: []lineSpec{mk("delete", 1)}, FinalNL: true},
+		{Stream: "regression/trailing_action", Lines: []lineSpec{ix, doc, mk("delete", 1)}, FinalNL: true},
+		{Stream: "regression/trailing_action", Lines: []lineSpec{ix}, FinalNL: true},
+		{Stream: "regression/trailing_action", Lines: []lineSpec{ix}, FinalNL: false},
+		{Stream: "regression/trailing_action", Lines: []lineSpec{ix, mk("empty", 0)}, FinalNL: true}, // "idx\n\n": the blank last line is not a line; item 400
+		{Stream: "regression/trailing_action", Lines: []lineSpec{mk("update", 1), mk("empty", 0)}, FinalNL: true},
+		{Stream: "regression/oversize", Lines: []lineSpec{ix, sized("doc_sized", maxRec+10), ix, mk("doc_truncated", 0), ix, doc}, FinalNL: true},
+		{Stream: "regression/oversize", Lines: []lineSpec{ix, sized("doc_sized", maxRec)}, FinalNL: true},
 		{Stream: "known/store_failure", Lines: []lineSpec{mk("index", 9), doc}, FinalNL: true, BadIndex: []int{9}},
 	}
 }
@@ -755,8 +763,7 @@ func main() {
 		cases = append(cases, genTrailing(rT), genOversize(rO), genStoreFail(rS))
 	}
 
-	known := map[string]bool{"bulk_trailing_action_without_doc": true, "bulk_oversize_item_not_in_errors_flag": true,
-		"bulk_oversize_status_sticky": true, "bulk_store_failure_reported_created": true}
+	known := map[string]bool{"bulk_store_failure_reported_created": true}
 	reported := map[string]int{}
 	var coqCases []string
 	shard := 0
@@ -776,7 +783,7 @@ func main() {
 			sum.HarnessError(fmt.Sprintf("case %d: %s", ci, herr))
 			continue
 		}
-		acts := grammar(c.Lines, lens)
+		acts := grammar(c.Lines, lens, c.FinalNL)
 		var key strings.Builder
 		nfail := 0
 		for _, l := range c.Lines {
